@@ -356,9 +356,10 @@ class Check:
         if floor is not None:
             self.floors[rule] = floor
 
-    def ok(self, rule, where, detail=None, trivial=False):
+    def ok(self, rule, where, detail=None, trivial=False, count=1):
+        """count > 1: one instance line standing for `count` evaluated cases (abstract runs, enumerated chains ...)"""
         self.instances.append({'rule': rule, 'instance': short(where, 200), 'verdict': 'OK', 'trivial': trivial,
-                               **({'detail': detail} if detail else {})})
+                               **({'detail': detail} if detail else {}), **({'count': count} if count != 1 else {})})
 
     def bad(self, rule, mod, func, construct, what, node=None, detail=None):
         file = mod.rel if isinstance(mod, Module) else mod
@@ -392,7 +393,7 @@ class Check:
         # instance floors: a rule that matched fewer sites than confirmed by hand is broken, not passing
         counts = {}
         for inst in self.instances:
-            counts[inst['rule']] = counts.get(inst['rule'], 0) + 1
+            counts[inst['rule']] = counts.get(inst['rule'], 0) + inst.get('count', 1)
         for rule, floor in self.floors.items():
             if counts.get(rule, 0) < floor and not any(u['rule'] == rule for u in self.unrecognised):
                 self.unrec(rule, f'only {counts.get(rule, 0)} instances found, floor is {floor} (rule would pass vacuously)')
@@ -418,7 +419,8 @@ class Check:
         for u in self.unrecognised:
             out.append(f'ANALYSIS-ERROR property={self.prop} rule={u["rule"]} {u["what"]}' + (f' [{u["where"]}]' if u.get('where') else ''))
 
-        n_ok = sum(1 for i in self.instances if i['verdict'] == 'OK')
+        n_ok = sum(i.get('count', 1) for i in self.instances if i['verdict'] == 'OK')
+        n_all = sum(i.get('count', 1) for i in self.instances)
         nontrivial = {(i['rule'], i['instance']) for i in self.instances if not i.get('trivial')}
         samples = []
         seen_rules = set()
@@ -434,10 +436,10 @@ class Check:
             'level': 'other',
             'coverage': {
                 'explanation': explanation,
-                'obligations': len(self.instances),
+                'obligations': n_all,
                 'discharged': n_ok,
-                'evaluations': len(self.instances),
-                'distinct_nontrivial': len(nontrivial),
+                'evaluations': n_all,
+                'distinct_nontrivial': len(nontrivial) + sum(i.get('count', 1) - 1 for i in self.instances if not i.get('trivial')),
                 'rule': enumeration_rule,
                 'samples': samples or [{'note': 'no instance evaluated'}],
                 'exhaustive': not self.unrecognised,
@@ -461,7 +463,7 @@ class Check:
 
         Check.last_code = (1 if any(f.key == replay_key for f in self.findings) else 0) if replay_key is not None else \
             (1 if new else (2 if self.unrecognised else 0))
-        print(f'[{self.prop}] tier={self.tier} repo={self.repo.root} rules={len(self.rules_doc)} instances={len(self.instances)} '
+        print(f'[{self.prop}] tier={self.tier} repo={self.repo.root} rules={len(self.rules_doc)} instances={n_all} '
               f'ok={n_ok} known={len(old)} violations={len(new)} unrecognised={len(self.unrecognised)} '
               f'wall={evidence["wall_s"]}s')
         for rule in sorted(self.rules_doc):
